@@ -89,3 +89,43 @@ func symxC18B() {
 	b.cancel()
 	rt.Quiesce()
 }
+
+// symxC18C: structure-aware mutation. A valid packet sequence (SUBSCRIBE, QoS 1 PUBLISH, QoS 2
+// PUBLISH, PUBREL, UNSUBSCRIBE, PINGREQ) is truncated at a solver-chosen offset and has up to
+// `mutations` solver-chosen positions replaced by arbitrary bytes (flipped type/flag nibbles,
+// corrupted remaining-length and length prefixes, QoS 3, identifier 0, empty topic lists ...).
+func symxC18C() {
+	nmut := rt.Param("mutations", 1)
+	b := symxNewBroker(1, 1)
+	p := b.start(nil)
+	f := p.front(&symxAuth{mountPoint: "m", ids: []string{"x1", "x2"}})
+	c := symxNewConn()
+	rt.Assert(f.connect(c, symxConnectBytes("cid", 30, "", []byte("w"), []byte("bye"), 0, false)) == nil, "C18.connect_accepted")
+	rt.Quiesce()
+	var stream []byte
+	stream = append(stream, symxSubscribeBytes(1, "q", 1)...)
+	stream = append(stream, symxPublishBytes("q", []byte("p"), 1, 2, false)...)
+	stream = append(stream, symxPublishBytes("r", []byte("p"), 2, 3, true)...)
+	stream = append(stream, symxFrame(0x62, []byte{0, 3})...)                                 // PUBREL 3
+	stream = append(stream, symxFrame(0xA2, append([]byte{0, 4}, symxLP([]byte("q"))...))...) // UNSUBSCRIBE
+	stream = append(stream, symxPingReq()...)
+	cut := int(rt.Int("truncate_at", 0, int64(len(stream))))
+	stream = stream[:cut]
+	for k := 0; k < nmut; k++ {
+		if len(stream) == 0 {
+			break
+		}
+		pos := int(rt.Int("mutate_at", 0, int64(len(stream)-1)))
+		stream[pos] = rt.Byte("mutant")
+	}
+	symxBoundLengths(stream, byte(rt.Param("maxlen", 24)))
+	symxTick()
+	c.feed(stream)
+	c.feedEOF()
+	rt.Quiesce()
+	symxPoolRetryWait(2)
+	rt.Assert(symxRoundTrip(p, "c"), "C18.other_clients_unaffected")
+	rt.Assert(b.local.Get("x1") == nil, "C18.stream_end_terminates_only_that_session")
+	b.cancel()
+	rt.Quiesce()
+}
